@@ -1034,6 +1034,10 @@ def mk_server_cfg(args: ArgsType) -> configparser.SectionProxy:
             value = args[opt]
             if test_cfg_val(opt, value):
                 cfg[opt] = arg2config(opt, opt_type, value)
+            else:
+                # Values that aren't written (null, or same as the default) must
+                # not be shadowed by a stale value saved by an earlier run.
+                USERCFG.remove_option(server, opt)
 
     return cfg
 
